@@ -358,7 +358,7 @@ impl PollFd<'_> {
     }
 }
 
-pub use libc::{POLLHUP, POLLIN, POLLOUT};
+pub use libc::{POLLERR, POLLHUP, POLLIN, POLLOUT};
 
 pub fn poll(fds: &mut [PollFd<'_>], mut timeout: Option<Duration>) -> Result<usize> {
     let deadline = timeout.map(|timeout| Instant::now() + timeout);
